@@ -60,7 +60,7 @@ Record TOk (T : table) : Prop := mkTOk {
   o_ray_need : t_ray_need T = true;
   o_mesh_clear : forall k, t_mesh_clear T k = true; o_mesh_notify : forall k, t_mesh_notify T k = true;
   o_meshset_need : t_meshset_need T = true; o_meshset_sub : t_meshset_sub T = true;
-  o_meshset_initsols : t_meshset_initsols T = true;
+  o_meshset_initsols : t_meshset_initsols T = true; o_meshset_keeps_old : t_meshset_keeps_old T = true;
   o_updmesh_need : t_updmesh_need T = true;
   o_bcinit : t_bcinit T <> NNever; o_dirichlet : t_dirichlet T <> NNever; o_lagrange : t_lagrange T <> NNever;
   o_newton_need : t_newton_need T = true;
@@ -408,7 +408,7 @@ Lemma setmesh_sim_inv T m v1 v2 p ms s :
   TOk T -> m < length ms -> SimInv p ms s -> SimInv p ms (setmesh_sim T m v1 v2 s).
 Proof.
   intros O Hm I. unfold setmesh_sim.
-  rewrite (o_meshset_sub _ O), (o_meshset_need _ O), (o_meshset_initsols _ O).
+  rewrite (o_meshset_sub _ O), (o_meshset_need _ O), (o_meshset_initsols _ O), (o_meshset_keeps_old _ O).
   pose proof (inv_struct _ _ _ I) as St.
   set (a := set_rg (set_cur m _) _).
   assert (Sa : Struct ms a).
